@@ -107,7 +107,7 @@ func H08_retained() {
 			n, _ := b.connect(vrtConnectPkt([]byte{'n', byte('0' + k)}, true))
 			sub := &specPkt{Typ: specSUBSCRIBE, ID: 7, Topics: [][]byte{F}, QoS: []byte{g}}
 			wantAck := []byte{0x90, 3, 0, 7, g}
-			if vrtBool("secondfilter") {
+			if vrtBound("N08second", 0) == 1 && vrtBool("secondfilter") {
 				// a second filter in the same packet that matches nothing, with its own QoS
 				g2 := vrtByte("granted2")
 				vrtAssume(g2 <= 2)
